@@ -45,13 +45,16 @@ def open_finding_ids(prop):
 
 
 # ------------------------------------------------------------------------------ one job
+REPO = os.path.realpath(os.environ.get("VERIF_REPO", "/repo")) + "/"
+
+
 def _profile_functions(store):
     def prof(frame, event, arg):
         if event == "call":
             co = frame.f_code
             fn = co.co_filename
-            if fn.startswith("/repo/"):
-                store.add("%s:%s" % (fn[len("/repo/"):], co.co_qualname))
+            if fn.startswith(REPO):
+                store.add("%s:%s" % (fn[len(REPO):], co.co_qualname))
     return prof
 
 
@@ -103,7 +106,7 @@ def run_job(args):
             if res["paths"] > job.max_paths:
                 res["inconclusive"] = "path budget %d exhausted" % job.max_paths
                 break
-            if time.time() - t0 > job.budget_s:
+            if time.time() - t0 > (job.budget_s if tier == "thorough" else min(job.budget_s, 300)):
                 res["inconclusive"] = "time budget %ds exhausted after %d paths" % (
                     job.budget_s, res["paths"])
                 break
@@ -255,6 +258,7 @@ def main(mod, argv=None):
     ap.add_argument("--only", help="substring filter on obligation names (debugging)")
     ap.add_argument("--procs", type=int, default=0)
     ap.add_argument("--no-evidence", action="store_true")
+    ap.add_argument("--all", action="store_true", help="do not stop at the first replayed violation")
     a = ap.parse_args(argv)
     prop = mod.PROPERTY
     seed = int(os.environ.get("VERIF_SEED", "0") or 0)
@@ -278,17 +282,49 @@ def main(mod, argv=None):
     nproc = a.procs or min(len(idx), os.cpu_count() or 4, 16)
     args = [(mod.__name__, i, tier, seed, True) for i in idx]
     results = []
+    confirmed = {}  # job key -> (path, replay text) of violations that reproduced on the real code
+    rep_dir = os.path.join(VERIF, "replays", prop)
+    budget = int(os.environ.get("VERIF_JOB_BUDGET_S", "0") or 0)
+
+    def on_result(r):
+        """replay a counterexample as soon as it arrives; -> True to stop early (fail fast)"""
+        results.append(r)
+        if os.environ.get("VSYM_VERBOSE"):
+            print("  done %-90s paths=%d wall=%.1fs %s" % (r["job"][:90], r["paths"], r["wall_s"],
+                  "VIOL" if r["violation"] else (r["inconclusive"] or r["harness_error"] or "")[:200]), flush=True)
+        if not r["violation"]:
+            return False
+        v = r["violation"]
+        rec = {"property": prop, "obligation": r["obligation"], "params": r["params"],
+               "inputs": v["inputs"], "label": v["label"], "tier": tier, "detail": v["detail"]}
+        job = _find_job(mod, rec)
+        out, label, cc, exc = run_concrete(job.fn, rec["params"], rec["inputs"])
+        v["replay"] = (out, label, repr(exc))
+        if _same_failure(v["label"], out, label):
+            os.makedirs(rep_dir, exist_ok=True)
+            h = hashlib.sha1(json.dumps(rec, sort_keys=True).encode()).hexdigest()[:12]
+            path = os.path.join(rep_dir, "%s.json" % h)
+            rec["replayed"] = "%s %s %r" % (out, label, exc)
+            with open(path, "w") as f:
+                json.dump(rec, f, indent=1, sort_keys=True)
+            confirmed[r["job"]] = path
+            return not a.all
+        return False
+
+    stopped_early = False
     if nproc <= 1:
         for x in args:
-            results.append(run_job(x))
+            if on_result(run_job(x)):
+                stopped_early = True
+                break
     else:
         mpctx = multiprocessing.get_context("fork")
         with mpctx.Pool(nproc, maxtasksperchild=8) as pool:
             for r in pool.imap_unordered(run_job, args, chunksize=1):
-                results.append(r)
-                if os.environ.get("VSYM_VERBOSE"):
-                    print("  done %-90s paths=%d wall=%.1fs %s" % (r["job"][:90], r["paths"], r["wall_s"],
-                          "VIOL" if r["violation"] else (r["inconclusive"] or r["harness_error"] or "")[:200]), flush=True)
+                if on_result(r):
+                    stopped_early = True
+                    pool.terminate()
+                    break
     results.sort(key=lambda r: r["job"])
 
     exit_code = 0
@@ -312,47 +348,42 @@ def main(mod, argv=None):
             messages.append("note: known finding %s no longer reproduces (%s %s)" % (kf["id"], out, label))
 
     # 2. results of the exploration
-    rep_dir = os.path.join(VERIF, "replays", prop)
+    soft = 0
     for r in results:
         if r["harness_error"]:
-            exit_code = max(exit_code, 2)
+            soft = 2
             messages.append("HARNESS-ERROR %s: %s" % (r["job"], r["harness_error"]))
             continue
         if r["violation"]:
             v = r["violation"]
-            rec = {"property": prop, "obligation": r["obligation"], "params": r["params"],
-                   "inputs": v["inputs"], "label": v["label"], "tier": tier, "detail": v["detail"]}
-            job = _find_job(mod, rec)
-            out, label, cc, exc = run_concrete(job.fn, rec["params"], rec["inputs"])
-            if _same_failure(v["label"], out, label):
-                os.makedirs(rep_dir, exist_ok=True)
-                h = hashlib.sha1(json.dumps(rec, sort_keys=True).encode()).hexdigest()[:12]
-                path = os.path.join(rep_dir, "%s.json" % h)
-                rec["replayed"] = "%s %s %r" % (out, label, exc)
-                with open(path, "w") as f:
-                    json.dump(rec, f, indent=1, sort_keys=True)
+            out, label, exc = v["replay"]
+            if r["job"] in confirmed:
                 violations += 1
-                exit_code = max(exit_code, 1)
-                print("violated: %s %s: %s\n  inputs %s\n  concrete replay: %s %s %r" % (
+                print("violated: %s %s: %s\n  inputs %s\n  concrete replay: %s %s %s" % (
                     r["obligation"], r["params"], v["label"], _short(v["inputs"], 60), out, label, exc))
-                print("VIOLATION property=%s replay=%s" % (prop, path))
+                print("VIOLATION property=%s replay=%s" % (prop, confirmed[r["job"]]))
             else:
-                exit_code = max(exit_code, 2)
+                soft = 2
                 messages.append(
                     "HARNESS-ERROR %s: counterexample for '%s' does not reproduce on the real code "
-                    "(concrete run: %s %s %r); inputs %s\n%s" % (
+                    "(concrete run: %s %s %s); inputs %s\n%s" % (
                         r["job"], v["label"], out, label, exc, _short(v["inputs"], 60), v["detail"]))
             continue
         if r["inconclusive"]:
-            exit_code = max(exit_code, 2)
+            soft = 2
             messages.append("INCONCLUSIVE %s: %s" % (r["job"], r["inconclusive"]))
             continue
         if not r["reach"].get("end"):
-            exit_code = max(exit_code, 2)
+            soft = 2
             messages.append("VACUOUS %s: no path reached the end of the harness" % r["job"])
         if not r["labels"]:
-            exit_code = max(exit_code, 2)
+            soft = 2
             messages.append("VACUOUS %s: no check was evaluated" % r["job"])
+    if stopped_early:
+        messages.append("note: stopped at the first replayed violation (%d of %d obligations finished); --all explores everything"
+                        % (len(results), len(args)))
+    # a replayed violation is definitive and takes precedence over inconclusive obligations
+    exit_code = 1 if violations else soft
     for m in messages:
         print(m)
 
@@ -411,6 +442,6 @@ def main(mod, argv=None):
 def _ifconv_sites():
     try:
         from . import ctx as C
-        return [s.replace("/repo/", "") for s in C.ifconv_sites()]
+        return [s.replace(REPO, "") for s in C.ifconv_sites()]
     except Exception as e:  # noqa
         return ["error: %r" % e]
